@@ -59,12 +59,13 @@ enum ScriptKind {
   SK_RINGBULK_AFTER_STOP, // resizer parked after stop flags; ring bulk; release
   SK_PLACED_AFTER_STOP, // resizer parked after stop flags; placed submissions claim sleepers -> steal rings; release
   SK_FQ_AFTER_RESIZE0, // producer parked after forceEnqueue's size test; resize(0) completes; release
+  SK_SHRINK_BEFORE_RINGCOUNT, // producer parked after the task set's racy ring test, before scheduleBulkToRings re-reads the ring count; full shrink; release
 };
 struct ScriptSpec {
   int kind = SK_PUSH_AFTER_SHRINK;
   int N = 4, target = 2, count = 4;
   int setKind = 1; // 1 TaskSet, 3 ConcurrentTaskSet lightweight (both take the ring path); SK_PLACED: 0 future on pool, 2 CTS heavy
-  int via = 0; // SK_FQ_AFTER_RESIZE0: 0 pool.schedule, 1 TaskSet::schedule
+  int via = 0; // SK_FQ_AFTER_RESIZE0: 0 pool.schedule(f, ForceQueuingTag), 1 TaskSet::schedule, 2 several plain pool.schedule(f)
   int mult = 32;
   bool realWait = false; // wait() under the watchdog instead of the bounded tryWait probe
   bool checkAccounting = false;
@@ -80,6 +81,7 @@ struct ScriptObs {
   bool stranded = false; // state-based stranded verdict
   long strandedTasks = 0, ringsBeyond = 0, polls = 0;
   long drainedByResize = 0;
+  long ranInDtor = 0; // SK_FQ_AFTER_RESIZE0: tasks that only ~ThreadPool ran
   CaseObs c;
 };
 ScriptObs runScript(const ScriptSpec& s);
